@@ -24,6 +24,40 @@ type caseC03 struct {
 	// process (see priorDecode) before each decode; "" = none
 	Prior   string `json:"prior,omitempty"`
 	PriorAt int    `json:"prior_at,omitempty"`
+	// Grow > 0 (enumerated cases): instead of Src, a stream of several blocks
+	// whose declared dictionaries GROW from block to block (4 KiB, then
+	// 4 KiB << Grow, ...), each later block with a match that reaches farther
+	// back than every earlier block's dictionary allows
+	Grow int `json:"grow,omitempty"`
+}
+
+// growingDictStream builds the stream of a Grow case with the reference
+// encoder.
+func growingDictStream(grow int, check byte) (*gen.Built, error) {
+	sp := ref.StreamSpec{Check: check}
+	p := gen.NewPRNG(uint64(4000 + grow))
+	for blk, code := 0, byte(0); blk < 3 && code <= 12; blk, code = blk+1, code+byte(2*grow) {
+		ds, _ := ref.DictSizeForCode(code)
+		var ops []ref.Op
+		n := 300
+		if blk > 0 {
+			n = int(ds/2) + 700 // more than the previous block's whole dictionary
+		}
+		if n > 40000 {
+			n = 40000
+		}
+		for i := 0; i < n; i++ {
+			ops = append(ops, ref.Op{Kind: ref.OpLit, Byte: byte(p.Next())})
+		}
+		ops = append(ops, ref.Op{Kind: ref.OpMatch, Dist: uint32(n - 9), Len: 30}, ref.Op{Kind: ref.OpLit, Byte: 'x'}, ref.Op{Kind: ref.OpMatch, Dist: uint32(n/2 + 100), Len: 11})
+		sp.Blocks = append(sp.Blocks, ref.BlockSpec{DictCode: code, WithUSize: blk%2 == 1,
+			Chunks: []ref.ChunkSpec{{Kind: ref.CkLRND, Props: ref.Props{LC: 3, LP: 0, PB: 2}, Ops: ops}, {Kind: ref.CkEnd}}})
+	}
+	stream, plain, err := ref.EncodeXZ(sp)
+	if err != nil {
+		return nil, err
+	}
+	return &gen.Built{Stream: stream, Content: plain}, nil
 }
 
 func drawC03(t *rapid.T) caseC03 {
@@ -66,6 +100,10 @@ func statClasses(rec *ev.Rec, st *ref.Stats) (n int) {
 
 func checkC03(c caseC03, rec *ev.Rec) *ev.Failure {
 	b, err := c.Src.Build()
+	if c.Grow > 0 {
+		c.Src.Origin = "ref"
+		b, err = growingDictStream(c.Grow, c.Src.Check)
+	}
 	if err != nil {
 		rec.Incomplete("stream construction failed: " + err.Error())
 		return nil
@@ -170,6 +208,25 @@ func TestC03(t *testing.T) {
 				c := caseC03{Src: gen.Src{Fmt: "xz", Origin: "ref", Seed: uint64(1000 + k), NOps: 6, NChunks: 1, NBlocks: 1 + k%2, Check: []byte{1, 4, 10, 0}[k%4], Sizes: sizes, ExtraPad: k}, DictCaps: []int{4096}}
 				rec.Class("header_size_byte_enumerated")
 				if !try(c) {
+					return
+				}
+			}
+		}
+	})
+	if t.Failed() {
+		return
+	}
+	// declared dictionaries that grow from block to block
+	enumerate(t, rec, checkC03, func(try func(caseC03) bool) {
+		i := 0
+		for grow := 1; grow <= 3; grow++ {
+			for _, check := range []byte{1, 4, 10, 0} {
+				i++
+				if i%rec.Shards != rec.Shard {
+					continue
+				}
+				rec.Class("dictionary_grows_from_block_to_block")
+				if !try(caseC03{Src: gen.Src{Fmt: "xz", Origin: "ref", Check: check}, DictCaps: []int{0, 4096, 1 << 20}, Grow: grow}) {
 					return
 				}
 			}
